@@ -108,6 +108,26 @@ def check_function(rep, ex: Explorer, qual: str, role: str):
                             seen_bad.add(e2.node.lineno)
                             rep.violation("PART.split", f"{site}:{e2.node.lineno}", "placement without test", "an element joins the tolerated (or the remaining) conditionals only by the outcome of its own tolerance test",
                                           extracted="placed under " + (" ∧ ".join(show_pred(k if v else ("not", k))[:80] for k, v in case.guard) or "no condition"), required="SAT / UNSAT of the tolerance test", function=site)
+    # ... and the outcome of the test is recorded: the element goes to one list when tolerated, to another when not
+    for p in paths:
+        for ev, Q in iter_events(p.events):
+            if ev.kind == "loop" and ev.fam == HF:
+                targets = {}
+                for case in ev.cases:
+                    sat = [v for k, v in case.guard if k[0] == "sat"]
+                    if len(sat) != 1:
+                        continue
+                    apps = [e2 for e2, Q2 in iter_events(case.events) if e2.kind == "list.append" and isinstance(e2.value, ElemV) and e2.value.var == ev.evar]
+                    targets[sat[0]] = [e2.obj.oid for e2 in apps if isinstance(e2.obj, Ref)]
+                for val, what in ((True, "tolerated"), (False, "not tolerated")):
+                    if val in targets and ("rec", val) not in seen_bad:
+                        if len(targets[val]) != 1:
+                            seen_bad.add(("rec", val))
+                            rep.violation("PART.split", site, f"{what} element recorded", f"an element whose tolerance test is {'satisfiable' if val else 'unsatisfiable'} is recorded in the {'new layer' if val else 'remaining family'} (once)",
+                                          extracted=f"{len(targets[val])} placement(s)", required="1", function=site)
+                if True in targets and False in targets and len(targets[True]) == 1 and len(targets[False]) == 1 and targets[True] == targets[False] and "same" not in seen_bad:
+                    seen_bad.add("same")
+                    rep.violation("PART.split", site, "two lists", "tolerated and not tolerated elements are kept apart", extracted="both are appended to the same list", required="two lists", function=site)
     if seen_bad:
         return {"queries": n_queries, "rows": 0, "paths": len(paths)}
     if tolq is None:
@@ -206,6 +226,11 @@ def check_function(rep, ex: Explorer, qual: str, role: str):
                 # than the one joint test of the remaining material counterparts
                 rep.violation("PART.terminal", site, "extended terminal verdict", "with no tolerated conditional left the extended verdict is the joint satisfiability of the remaining material counterparts",
                               extracted="decided by " + "; ".join(show_pred(k)[:120] for k, v in unknown), required="SAT(⋀ material(c) for the remaining c)", function=site)
+                continue
+            lenpreds = [k for k, v in unknown if k[0] == "cmp" and isinstance(k[2], tuple) and k[2][0] == "lin" and any(t == ("len", HF[1]) for t, c in k[2][1][0])]
+            if lenpreds and len(lenpreds) == len(unknown):
+                rep.violation("PART.terminal", site, "termination test", "the layer loop ends exactly when no conditional remains (an exact count other than 0 is not a termination condition of the construction)",
+                              extracted="decides on " + "; ".join(show_pred(k)[:120] for k in lenpreds), required="remaining family empty", function=site)
                 continue
             raise AnalysisError(f"{site}: outcome depends on a predicate the specification does not mention: {unknown[0][0]!r}")
         # terminal query scope
